@@ -501,6 +501,31 @@ findInsertionPointLinearSearch(
 
 
 
+// Normalize so that a document node owns itself, which is
+// not how DOM works...
+inline const XalanNode*
+getOwnerNormalized(const XalanNode&     node)
+{
+    const XalanNode::NodeType   theType = node.getNodeType();
+
+    return theType == XalanNode::DOCUMENT_NODE ||
+           theType == XalanNode::DOCUMENT_FRAGMENT_NODE ?
+                &node : node.getOwnerDocument();
+}
+
+
+
+inline bool
+isDocumentNode(const XalanNode&     node)
+{
+    const XalanNode::NodeType   theType = node.getNodeType();
+
+    return theType == XalanNode::DOCUMENT_NODE ||
+           theType == XalanNode::DOCUMENT_FRAGMENT_NODE;
+}
+
+
+
 struct DocumentPredicate
 {
     bool
@@ -508,25 +533,10 @@ struct DocumentPredicate
             const XalanNode&    node1,
             const XalanNode&    node2) const
     {
-        // Always order a document node, or a node from another
-        // document after another node...
-        const XalanNode::NodeType   node1Type =
-            node1.getNodeType();
-
-        const XalanNode::NodeType   node2Type =
-            node2.getNodeType();
-
-        if ((node1Type == XalanNode::DOCUMENT_NODE ||
-             node1Type == XalanNode::DOCUMENT_FRAGMENT_NODE) &&
-            (node2Type == XalanNode::DOCUMENT_NODE ||
-             node2Type == XalanNode::DOCUMENT_FRAGMENT_NODE))
-        {
-            return true;
-        }
-        else
-        {
-            return node1.getOwnerDocument() != node2.getOwnerDocument();
-        }
+        // Always order a node from another document after
+        // another node.  A document node belongs to its own
+        // document, and comes before every other node of it.
+        return getOwnerNormalized(node1) != getOwnerNormalized(node2);
     }
 };
 
@@ -539,7 +549,7 @@ struct IndexPredicate
             const XalanNode&    node1,
             const XalanNode&    node2) const
     {
-        assert(node1.getOwnerDocument() == node2.getOwnerDocument());
+        assert(getOwnerNormalized(node1) == getOwnerNormalized(node2));
 
         return m_documentPredicate(node1, node2) == true ? true : node1.getIndex() > node2.getIndex() ? true : false;
     }
@@ -566,14 +576,18 @@ struct ExecutionContextPredicate
         {
             return true;
         }
+        else if (isDocumentNode(node1) == true)
+        {
+            // The document node comes first...
+            return false;
+        }
+        else if (isDocumentNode(node2) == true)
+        {
+            return true;
+        }
         else
         {
             assert(node1.getOwnerDocument() == node2.getOwnerDocument());
-            assert(
-                node1.getNodeType() != XalanNode::DOCUMENT_NODE &&
-                node1.getNodeType() != XalanNode::DOCUMENT_FRAGMENT_NODE &&
-                node2.getNodeType() != XalanNode::DOCUMENT_NODE &&
-                node2.getNodeType() != XalanNode::DOCUMENT_FRAGMENT_NODE);
 
             return  m_executionContext.isNodeAfter(node1, node2);
         }
@@ -629,7 +643,7 @@ MutableNodeRefList::addNodeInDocOrder(
                 assert(theFirstNodeOwner != 0);
 
                 if (node->isIndexed() == true &&
-                    node->getOwnerDocument() == theFirstNodeOwner)
+                    getOwnerNormalized(*node) == theFirstNodeOwner)
                 {
                     // If it's indexed, then see if the entire list consists of
                     // nodes from the same document.
